@@ -278,7 +278,13 @@ def prefixesBeforeRuns (evs : List UEv) : List (List UEv) :=
 def dbEvents (evs : List UEv) : List Ev :=
   evs.filterMap (fun e => match e with | .db x => some x | .fs _ => none)
 
-def opUpdate : Rd String := do
+/-- what the engine-side log of a CLI run can see: connections and requests -/
+def engineVisible : Ev → Bool
+  | .make .. => true
+  | .run .. => true
+  | _ => false
+
+def opUpdateWith (format noSnap : Bool) : Rd String := do
   let strict ← bool
   let sep ← str
   let threshold ← nat
@@ -308,7 +314,7 @@ def opUpdate : Rd String := do
       let cfg : RCfg := { labels := labels, strictCols := strict }
       let uc : UCfg := { sep := sep, strictCols := strict, regexMatch := rm }
       let w0 : World DbState := { db := {}, threshold := threshold }
-      let fin := updateFile E cfg uc false w0 root recs
+      let fin := updateFile E cfg uc format w0 root recs
       if fin.crashed then "panic" else
       let pres := prefixesBeforeRuns fin.evs
       let snap (evs : List UEv) : String :=
@@ -321,17 +327,20 @@ def opUpdate : Rd String := do
           let evs := pres[k]
           let st := applyFsOps st0 (fsOpsOf evs)
           let temps := (st.temps.map (fun t => t.1 ++ kw ".temp")).mergeSort strLe
-          let snaps := (pres.take (k + 1)).foldl (fun acc p => acc ++ " " ++ snap p) s!"S {k + 1}"
+          let snaps := if noSnap then "S 0" else
+            (pres.take (k + 1)).foldl (fun acc p => acc ++ " " ++ snap p) s!"S {k + 1}"
           let left := temps.foldl (fun acc t => acc ++ " " ++ hx t) s!"L {temps.length}"
-          s!"panic {encFiles st} {left} {snaps} T {encTrace (dbEvents evs)}"
+          s!"panic {encFiles st} {left} {snaps} T {encTrace (if noSnap then (dbEvents evs).filter engineVisible else dbEvents evs)}"
         else
           let st := applyFsOps st0 (fsOpsOf fin.evs)
-          let snaps := pres.foldl (fun acc p => acc ++ " " ++ snap p) s!"S {pres.length}"
-          s!"ok {encFiles st} L 0 {snaps} T {encTrace (dbEvents fin.evs)}"
+          let snaps := if noSnap then "S 0" else
+            pres.foldl (fun acc p => acc ++ " " ++ snap p) s!"S {pres.length}"
+          s!"ok {encFiles st} L 0 {snaps} T {encTrace (if noSnap then (dbEvents fin.evs).filter engineVisible else dbEvents fin.evs)}"
       | none =>
         let st := applyFsOps st0 (fsOpsOf fin.evs)
-        let snaps := pres.foldl (fun acc p => acc ++ " " ++ snap p) s!"S {pres.length}"
-        s!"ok {encFiles st} L 0 {snaps} T {encTrace (dbEvents fin.evs)}"
+        let snaps := if noSnap then "S 0" else
+          pres.foldl (fun acc p => acc ++ " " ++ snap p) s!"S {pres.length}"
+        s!"ok {encFiles st} L 0 {snaps} T {encTrace (if noSnap then (dbEvents fin.evs).filter engineVisible else dbEvents fin.evs)}"
   let a := run false
   let b := run true
   pure (if a == b then a else "TABLE-MISS")
@@ -352,6 +361,100 @@ def opPart : Rd String := do
     let sel := globs.flatMap (selectFiles pathHash cfg)
     pure (sel.foldl (fun acc p => acc ++ " " ++ hx p) s!"sel {sel.length}")
 
+def readCEv : Rd CEv := do
+  match (← tok) with
+  | "create" => .create <$> str
+  | "drop" => .drop <$> str
+  | "connect" => do let s ← nat; let d ← str; pure (.connect s d)
+  | "sql" => do let s ← nat; let t ← str; pure (.sql s t)
+  | "eof" => .eof <$> nat
+  | "cancel" => pure .cancel
+  | x => throw s!"bad event {x}"
+
+def readGround : Rd Ground := do
+  match (← tok) with
+  | "pass" => pure .pass
+  | "fail" => pure (.fail false)
+  | "refuse" => pure (.fail true)
+  | x => throw s!"bad ground {x}"
+
+def readTag : Rd (Option FileResult) := do
+  match (← tok) with
+  | "ok" => pure (some .ok)
+  | "err" => pure (some .err)
+  | "skipped" => pure (some .skipped)
+  | "cancelled" => pure (some .cancelled)
+  | _ => pure none
+
+def readJStatus : Rd (Option JStatus) := do
+  match (← tok) with
+  | "success" => pure (some .success)
+  | "failure" => pure (some .failure)
+  | "skipped" => pure (some .skipped)
+  | _ => pure none
+
+def showViolation : Violation → String
+  | .useBeforeCreate db => s!"use-before-create {hx db}"
+  | .duplicateCreate db => s!"duplicate-create {hx db}"
+  | .foreignSql db t => s!"foreign-sql {hx db} {hx t}"
+  | .wrongDatabaseVar db t => s!"wrong-database-variable {hx db} {hx t}"
+  | .tooManyInFlight n => s!"too-many-in-flight {n}"
+  | .dropWhileOpen db => s!"drop-while-open {hx db}"
+  | .dropUnknown db => s!"drop-unknown-or-twice {hx db}"
+  | .notDropped db => s!"not-dropped {hx db}"
+  | .droppedThoughKept db => s!"dropped-though-kept {hx db}"
+  | .sessionNotClosed s => s!"session-not-closed {s}"
+  | .unknownSession s => s!"unknown-session {s}"
+  | .startAfterCancel db => s!"start-after-cancel {hx db}"
+
+def showReportViolation : ReportViolation → String
+  | .okButFails p => s!"reported-ok-but-fails {hx p}"
+  | .failedButPasses p => s!"reported-failed-but-passes {hx p}"
+  | .noStatus p => s!"no-status-line {hx p}"
+  | .junitMissing p => s!"junit-case-missing {hx p}"
+  | .junitName p => s!"junit-name {hx p}"
+  | .junitStatus p => s!"junit-status {hx p}"
+  | .skippedWithoutCause p => s!"skipped-without-cause {hx p}"
+  | .exitZero => "exit-zero-though-not-all-ok"
+  | .exitNonZero => "exit-nonzero-though-all-ok"
+  | .junitCount n => s!"junit-case-count {n}"
+
+/-- replay an observed CLI run through the monitor and the report checker -/
+def opCliMon : Rd String := do
+  let jobs ← nat
+  let keep ← bool
+  let refused ← bool
+  let mgmt ← str
+  let exitCode ← nat
+  let cancelCause ← bool
+  let junitCases ← nat
+  let reports ← listOf (do
+    let path ← str
+    let ground ← readGround
+    let tag ← readTag
+    let jn ← optStr
+    let js ← readJStatus
+    pure ({ path, ground, tag, junitName := jn, junitStatus := js } : FileReport))
+  let evs ← listOf readCEv
+  let cfg : MonCfg :=
+    { jobs, keep, refused, mgmtDb := mgmt
+      files := reports.map (fun r => { path := r.path, failed := r.tag == some FileResult.err }) }
+  match accepts cfg evs with
+  | some v => pure s!"reject {showViolation v}"
+  | none =>
+    match checkReport exitCode cancelCause junitCases reports with
+    | some v => pure s!"reject {showReportViolation v}"
+    | none => pure "accept"
+
+/-- the serial driver's fold: predicted results and exit status -/
+def opSerial : Rd String := do
+  let failFast ← bool
+  let grounds ← listOf readGround
+  let st := runSerial failFast (grounds.map (fun g => (g, false)))
+  let show1 : FileResult → String
+    | .ok => "ok" | .err => "err" | .skipped => "skipped" | .cancelled => "cancelled"
+  pure (st.results.foldl (fun acc r => acc ++ " " ++ show1 r) s!"exit={if exitOk st then 0 else 1}")
+
 def opSip : Rd String := do
   let p ← str
   pure (toString (pathHash p))
@@ -362,6 +465,8 @@ def opPartCfg : Rd String := do
   match partitionConfig count ident with
   | .error _ => pure "error"
   | .ok _ => pure "ok"
+
+def opUpdate : Rd String := opUpdateWith false false
 
 def dispatchOp (line : String) : String :=
   match line.splitOn " " with
@@ -374,9 +479,13 @@ def dispatchOp (line : String) : String :=
       | "fmt" => opFmt.run rest
       | "include" => opInclude.run rest
       | "update" => opUpdate.run rest
+      | "cliupdate" => (opUpdateWith false true).run rest
+      | "cliformat" => (opUpdateWith true true).run rest
       | "part" => opPart.run rest
       | "partcfg" => opPartCfg.run rest
       | "sip" => opSip.run rest
+      | "climon" => opCliMon.run rest
+      | "serial" => opSerial.run rest
       | _ => .error s!"unknown op {op}"
     match r with
     | .ok (out, []) => out
